@@ -18,8 +18,8 @@ ROOT = os.path.dirname(os.path.dirname(os.path.abspath(__file__)))
 REPO = "/repo"
 
 
-def sh(cmd, cwd, timeout=3600):
-    p = subprocess.run(cmd, shell=True, cwd=cwd, capture_output=True, text=True, timeout=timeout)
+def sh(cmd, cwd, timeout=3600, env=None):
+    p = subprocess.run(cmd, shell=True, cwd=cwd, capture_output=True, text=True, timeout=timeout, env=env)
     return p.returncode, (p.stdout + p.stderr)
 
 
@@ -68,7 +68,9 @@ def evaluate(sid, props):
     try:
         for p in props:
             t0 = time.time()
-            rc, out = sh("./check %s --tier quick" % p, ROOT, timeout=7200)
+            # evidence of a run on a seeded tree goes next to the seed, never into /verif/evidence
+            env = dict(os.environ, VERIF_EVIDENCE_DIR=os.path.join(sdir, "evidence"))
+            rc, out = sh("./check %s --tier quick" % p, ROOT, timeout=7200, env=env)
             lines = [l for l in out.splitlines() if l.startswith(("VIOLATION", "PASS", "UNDECIDED", "KNOWN-FINDING", "failed obligation"))]
             results[p] = {"exit": rc, "lines": lines[:12], "wall_s": round(time.time() - t0, 1)}
             print(p, rc, lines[:4])
